@@ -210,6 +210,11 @@ func eval(c Case) (out Outcome) {
 				if isUndo {
 					top = d.UndoStackTopForTest()
 				}
+				if content && excluding("C14c") && entryTriggersC14c(d, top) {
+					// the step is skipped: the entry stays on its stack
+					out.Ev["excluded:C14c"]++
+					continue
+				}
 				if excluding("F6") && c.PeerGC && !e.noPeerGC && entryHasObjectSet(top) {
 					e.noPeerGC = true
 					out.Ev["excluded:F6"]++
